@@ -136,12 +136,13 @@ CLAIMS = {
  "C03": ("proof",
   "Partial by nature. Proved in Lean: soundness of the three certificate checkers (optimality, Farkas, unbounded ray), mutual exclusivity of the three "
   "classes and uniqueness of the certified value - so the 'mathematical truth' of an LP is well defined by whichever certificate exists - and the "
-  "bound of 1 + QS_EXACT_MAX_ITER floating-point stages of the exact driver; and, for the primal phase-II ratio test (ratio.c ILLratio_pII_test, "
-  "transliterated as Qsx.Ratio and compared with mpq_ILLratio_pII_test field by field on generated rows), for every number of rows: the test never "
+  "bound of 1 + QS_EXACT_MAX_ITER floating-point stages of the exact driver; and, for the primal and dual phase-II ratio tests (ratio.c "
+  "ILLratio_pII_test / ILLratio_dII_test, transliterated as Qsx.Ratio.pII / dII and compared with the mpq instances field by field on generated rows; "
+  "the dual statements are the same ones about dual slacks), for every number of rows: the test never "
   "ends RATIO_FAILED whatever the arithmetic's comparison answers (the mpf instance is run on large-magnitude rows to observe exactly that), "
   "RATIO_UNBOUNDED means every step up to the infinity stand-in keeps all basic variables inside their bounds, NOBCHANGE / BCHANGE steps keep them "
   "inside and at tolerance 0 the leaving variable lands on the bound lvstat names. Explored, not proved: that QSexact_solver terminates with the true "
-  "definitive status on every moderate LP (simplex control, LU, pricing and the other three ratio tests are not modelled): every generated LP is classified by a self-certifying "
+  "definitive status on every moderate LP (simplex control, LU, pricing and the phase-I / long-step ratio tests are not modelled): every generated LP is classified by a self-certifying "
   "reference whose certificate passed the proved checker and the real solver's status and exact value are compared with it (exhaustive small "
   "family, degenerate, cycling-prone, margins 2^-k and near-parallel equalities, scales 10^±e, awkward denominators, random up to 30x30).",
   COMMON_NOTE + "Completeness is exploration with a proved oracle. UNBOUNDED is reported by the library from floating point alone.",
